@@ -1218,6 +1218,9 @@ class NqNet(SimNet):
     its virtual node through `client(name)` exactly like
     `simulaqron/run/run.py` does.
 
+    Constructing an NqNet empties netqasm's process-global shared-memory table
+    (see `reset_shared_memory`).
+
     facs {name: NetQASMFactory}; `reactor_stopped` tells whether the code
     under test called reactor.stop() (factory.stop / protocol error path).
     Inside `executioner.py` the names `random` (basis choice) and `time`
@@ -1229,8 +1232,10 @@ class NqNet(SimNet):
     Not provided: netqasm's own `NetQASMConnection` socket client (the host
     side here is a StringTransport, there is no socket)."""
 
-    def __init__(self, names, max_qubits=5, max_regs=100, topology=None, rng=None):
-        SimNet.__init__(self, names, max_qubits=max_qubits, max_regs=max_regs, topology=topology, rng=rng)
+    def __init__(self, names, max_qubits=5, max_regs=100, topology=None, rng=None, host_order=None):
+        self.reset_shared_memory()
+        SimNet.__init__(self, names, max_qubits=max_qubits, max_regs=max_regs, topology=topology, rng=rng,
+                        host_order=host_order)
         ns = self._ns
         from simulaqron.netqasm_backend.factory import NetQASMFactory
         from simulaqron.netqasm_backend.qnodeos import SubroutineHandler
@@ -1254,6 +1259,21 @@ class NqNet(SimNet):
             f.set_virtual_node(self.roots[n])
             self.facs[n] = f
         DebugConnection.node_ids = {n: i for i, n in enumerate(sorted(self.names))}
+
+    @staticmethod
+    def reset_shared_memory():
+        """netqasm keeps every application's shared memory in the process-global
+        table `SharedMemoryManager._MEMORIES`, keyed (node name, app id); the
+        backend's StopApp handling pops only the executor's own dict, never this
+        table, so a later InitNewApp for the same (node, app id) fails with
+        "Shared memory for (node, key): (Alice, 0) already exists".  A backend
+        process starts with an empty table, so NqNet.__init__ empties it (a new
+        network = freshly started backends).  Within ONE network the table is
+        left alone -- re-using an app id on a node after StopApp fails there
+        exactly as in a long-lived real backend; call this method between
+        applications only if the check deliberately wants to mask that."""
+        from netqasm.sdk.shared_memory import SharedMemoryManager
+        SharedMemoryManager.reset_memories()
 
     @property
     def reactor_stopped(self):
